@@ -376,7 +376,8 @@ Fixpoint keep_refs (refs : list refc) (tbl : list ste) (tlen : N) : list ste * N
   | [] => (tbl, tlen, [])
   | r :: rest =>
     if (1 <? r_count r) && (3 <? len (r_str r)) then
-      let '(_, tbl', tlen') := strtbl_add tbl tlen (r_str r) (r_alias r) in
+      (* the table owns a copy of the string (fix of D7): no entry shares a text node's buffer *)
+      let '(_, tbl', tlen') := strtbl_add tbl tlen (r_str r) None in
       keep_refs rest tbl' tlen'
     else
       let '(tbl', tlen', one) := keep_refs rest tbl tlen in (tbl', tlen', r :: one)
